@@ -28,6 +28,9 @@ class Scenario:
 class Oracle:
     """Base oracle: override what is needed.  All methods return lists of (clause, detail)."""
 
+    def before_seed(self, scn):  # before the seed script runs (register listeners here)
+        return None
+
     def begin(self, w, scn):  # after the seed is built, before the history is replayed
         return None
 
@@ -66,6 +69,8 @@ def build(scn, order, history, oracle=None, upto=None):
     core.set_order(order)
     NamespaceManager.default = scn.policy
     w = World()
+    if oracle is not None:
+        oracle.before_seed(scn)
     scn.seed(w)
     w.discover()
     if oracle is not None:
